@@ -37,7 +37,13 @@ RULE = ("a case block = one generated dataset (1-3 dims, axis lengths 1-5, coord
         "index arrays, boolean mask, empty-result slices) plus edge-aimed integer views for slice selections; "
         "IndexedData blocks = 2-3-d parent x random index tuple x (values, pixel, world, masks full and viewed, 5 "
         "statistics with and without selection and view, 1-d/2-d histograms with own and parent ids), indices "
-        "reassigned twice; slice blocks enumerate (state slice x view slice) pairs on short axes. A comparison is "
+        "reassigned twice; slice blocks enumerate (state slice x view slice) pairs on short axes. "
+        "Widening round: columns of many dtypes / layouts / magnitudes incl. stride-0 and dask-backed ones, falsy / "
+        "extreme selection parameters, views with negative integers / backward slices / negative and 2-d index arrays / "
+        "numpy integers / non-C masks, zero-size and >= 100-row datasets, the same pixel-based selections evaluated on a "
+        "pixel-aligned dataset with permuted axes, selections defined on a key-joined table, a tiny chunk limit for a "
+        "quarter of the blocks, fault-then-valid reads, IndexedData with negative / numpy-integer indices, nested "
+        "IndexedData, reassignment back to the first indices and reads from inside the change message. A comparison is "
         "non-trivial when the view is not None/Ellipsis and the expected result is non-empty and not constant; distinct "
         "= distinct (target, attribute or selection kind, view kind, shape, coords kind, view) fingerprints.")
 ASSUMPTIONS = ["numpy basic/advanced indexing of the full-size array is the specification of a view",
@@ -338,6 +344,8 @@ class DataBlock(object):
                     sig = {"target": "mask", "state_kind": desc["k"]}
                     if leaf_variant(desc):
                         sig["state_variant"] = leaf_variant(desc)
+                    if desc["k"].startswith("roi") and all(W.kinds.get(n) == "pixel" for n in desc.get("atts", ["-"])):
+                        sig["roi_over_pixel_attributes_only"] = True      # takes RoiSubsetStateNd's pixel-space shortcut
                     sig.update(self.common_keys(view, info))
                     sig.update(failure_keys(res))
             out = (sig, res, info, True)
